@@ -386,3 +386,79 @@ pub fn check(c: &PlanCase, known: &Known) -> Verdict {
     }
     v
 }
+
+// ---------------------------------------------------------------------------
+// populations as the allocator reads them from a data directory
+// ---------------------------------------------------------------------------
+
+/// A data directory whose `data.NNN` files are regular files or symbolic links to files kept
+/// elsewhere (another volume); `SegmentAllocator::load_existing` turns it into the population the
+/// planner gets. A segment's used bytes are the bytes of its data file, whatever kind of directory
+/// entry leads to it.
+#[derive(Debug, Clone, Serialize, Deserialize)]
+pub struct DirCase {
+    /// (length of the data file, reached through a symbolic link)
+    pub files: Vec<(u32, bool)>,
+    pub threshold_permille: u32,
+    pub segment_size: u32,
+}
+
+pub fn dir_strategy() -> BoxedStrategy<DirCase> {
+    (proptest::collection::vec((prop_oneof![Just(0u32), 1u32..200, 1000u32..60_000], proptest::bool::weighted(0.3)), 2..=6), prop_oneof![Just(500u32), 100u32..=1000], prop_oneof![Just(65_536u32), 50_000u32..200_000])
+        .prop_map(|(files, threshold_permille, segment_size)| DirCase { files: files.into_iter().map(|(l, s)| (l.min(segment_size), s)).collect(), threshold_permille, segment_size })
+        .boxed()
+}
+
+pub fn check_dir(c: &DirCase) -> Verdict {
+    use cascette_client_storage::storage::segment::SegmentAllocator;
+    if c.files.len() > 64 || c.segment_size == 0 || c.files.iter().any(|f| f.0 > c.segment_size) {
+        return Verdict::pass().class("excluded_by_domain");
+    }
+    let root = if std::path::Path::new("/dev/shm").is_dir() { "/dev/shm" } else { "/tmp" };
+    let Ok(td) = tempfile::Builder::new().prefix("vh-c18d-").tempdir_in(root) else {
+        return Verdict::pass().class("VACUOUS:no-tempdir");
+    };
+    let (data, other) = (td.path().join("data"), td.path().join("other-volume"));
+    if std::fs::create_dir_all(&data).is_err() || std::fs::create_dir_all(&other).is_err() {
+        return Verdict::pass().class("VACUOUS:no-tempdir");
+    }
+    let mut any_link = false;
+    for (i, (len, link)) in c.files.iter().enumerate() {
+        let name = format!("data.{i:03}");
+        let bytes = vec![0xA5u8; *len as usize];
+        let ok = if *link {
+            any_link = true;
+            std::fs::write(other.join(&name), &bytes).is_ok() && std::os::unix::fs::symlink(other.join(&name), data.join(&name)).is_ok()
+        } else {
+            std::fs::write(data.join(&name), &bytes).is_ok()
+        };
+        if !ok {
+            return Verdict::pass().class("VACUOUS:cannot-create-files");
+        }
+    }
+    let mut alloc = SegmentAllocator::new(data.clone(), [7u8; 16], 1023);
+    if let Err(e) = alloc.load_existing() {
+        return Verdict::fail("C18:merge-plan:load_existing-fails", e.to_string());
+    }
+    let segs = alloc.segments();
+    for (i, (len, link)) in c.files.iter().enumerate() {
+        let got = segs.get(i).map(|s| s.write_position);
+        if got != Some(u64::from(*len)) {
+            return Verdict::fail(
+                "C18:merge-plan:population-read-from-directory-misstates-used-bytes",
+                format!("data.{i:03} ({}) holds {len} bytes, the segment's write position is {got:?}", if *link { "symbolic link" } else { "regular file" }),
+            );
+        }
+    }
+    let plan = plan_archive_merge(segs, f64::from(c.threshold_permille) / 1000.0, u64::from(c.segment_size));
+    for m in &plan.moves {
+        let used = c.files.get(m.dest_segment as usize).map_or(0, |f| u64::from(f.0));
+        if m.length > 0 && m.dest_offset < used {
+            return Verdict::fail(K_USED_AT_PLANNING, format!("move of {} bytes from segment {} lands at offset {} of segment {}, whose data file holds {used} bytes", m.length, m.source_segment, m.dest_offset, m.dest_segment));
+        }
+        if m.dest_offset + m.length > u64::from(c.segment_size) {
+            return Verdict::fail(K_OVERFILL, format!("move ends at {} beyond segment_size {}", m.dest_offset + m.length, c.segment_size));
+        }
+    }
+    Verdict::pass().nontrivial(!plan.moves.is_empty()).class_if(any_link, "data-file-behind-a-symbolic-link").class_if(any_link && !plan.moves.is_empty(), "plan-with-moves-over-linked-files")
+}
